@@ -1,6 +1,6 @@
 """C05 — undefined or doubly defined names are reported as errors."""
 from . import common as C
-from . import modgen, modprops
+from . import modgen, modprops, localgen
 from .modprops import hx
 
 TRUSTED = ["Lean 4.33 kernel; axioms: propext, Quot.sound at most (see coverage.axioms_used)"] + modprops.MODEL_TRUST + [
@@ -26,6 +26,10 @@ def facts(res, harness):
 def gen(tier, rng, harness=None):
     n = 120 if tier == "quick" else 5000
     lines = []
+    # systematic: every definition-site kind x every use-site kind of one function body under confusable namings (vlib/localgen.py)
+    for kind, exp, text, sk in localgen.cases(rng, 20 if tier == "quick" else 400):
+        lines.append("mod.outcome %s %s" % (hx(sk), hx(text)))
+        lines.append("!mod.%s %s %s" % ("mustfail" if exp == "error" else "accept", hx(sk), hx(text)))
     for m, text, sk in modprops.gen_modules(rng, n):
         lines.append("mod.outcome %s %s" % (hx(sk), hx(text)))
         for kind, exp, ft, fsk in modgen.faults(rng, text, sk):
